@@ -228,6 +228,8 @@ type c16Case struct {
 	preset  []string // Content-Encoding values set by the caller (nil = header absent)
 	body    []byte
 	nilBody bool
+	chunked bool   // the body is handed over as an opaque reader: no length declared, sent chunked
+	method  string // not an input of the model: nothing may depend on it
 	rerr    bool // the request body's Read fails after delivering the bytes
 	cerr    bool // the request body's Close fails
 	max     int64
@@ -236,6 +238,7 @@ type c16Case struct {
 	custom  []c16KV
 	net     bool
 	large   bool
+	bomb    bool // valid stream whose decoded size exceeds the limit chosen with it
 	poison  bool // first push a request whose body fails through the same pooled compressor
 	class   string
 
@@ -244,6 +247,7 @@ type c16Case struct {
 	cstate   int  // 0 sent, 1 configuration refused, 2 RoundTrip returned an error before sending
 	wce      []string
 	wbody    []byte
+	wcl      int64 // ContentLength as the server chain receives it (-1 = none declared)
 	captured bool
 	kind     int // 0 handler ran, 1 rejected, 2 panicked
 	status   int
@@ -265,6 +269,7 @@ func (c *c16Capture) ServeHTTP(w http.ResponseWriter, r *http.Request) {
 	c.cs.captured = true
 	c.cs.wce = append([]string(nil), r.Header.Values("Content-Encoding")...)
 	c.cs.wbody = raw
+	c.cs.wcl = r.ContentLength
 	r.Body = io.NopCloser(bytes.NewReader(raw))
 	c.next.ServeHTTP(w, r)
 }
@@ -280,7 +285,17 @@ func (d *c16DirectRT) RoundTrip(req *http.Request) (*http.Response, error) {
 		raw, _ = io.ReadAll(req.Body)
 		_ = req.Body.Close()
 	}
-	sreq := httptest.NewRequest(req.Method, req.URL.String(), bytes.NewReader(raw))
+	// the length net/http would declare for this outgoing request (transferWriter: ContentLength, or
+	// unknown -> chunked when a non-empty body of unknown length is attached)
+	cl := req.ContentLength
+	if cl == 0 && req.Body != nil && req.Body != http.NoBody && len(raw) > 0 {
+		cl = -1
+	}
+	var sbody io.Reader = bytes.NewReader(raw)
+	if cl < 0 {
+		sbody = struct{ io.Reader }{sbody} // httptest.NewRequest: unknown reader type => ContentLength -1
+	}
+	sreq := httptest.NewRequest(req.Method, req.URL.String(), sbody)
 	sreq.Header = req.Header.Clone()
 	rec := httptest.NewRecorder()
 	func() {
@@ -415,11 +430,17 @@ func c16Run(t *testing.T, cs *c16Case) {
 	var body io.Reader
 	if !cs.nilBody {
 		body = bytes.NewReader(cs.body)
+		if cs.chunked {
+			body = struct{ io.Reader }{body}
+		}
 		if cs.rerr || cs.cerr {
 			body = &c16FlakyBody{data: cs.body, rerr: cs.rerr, cerr: cs.cerr}
 		}
 	}
-	req, err := http.NewRequestWithContext(ctx, http.MethodPost, url, body)
+	if cs.method == "" {
+		cs.method = http.MethodPost
+	}
+	req, err := http.NewRequestWithContext(ctx, cs.method, url, body)
 	if err != nil {
 		t.Fatalf("NewRequest: %v", err)
 	}
@@ -522,6 +543,9 @@ func c16Oracle(out *vOut, cs *c16Case, term string) {
 	}
 	compressing := c16CodecOfName(cs.typ) >= 0
 	enc := c16First(cs.wce)
+	if cs.wcl != int64(len(cs.wbody)) && cs.wcl != -1 {
+		fail("wire-length", "declared length %d is neither the body size nor -1", cs.wcl)
+	}
 	// preset Content-Encoding: the body is not compressed again, the header is left alone
 	if c16First(cs.preset) != "" {
 		if !bytes.Equal(cs.wbody, cs.body) || strings.Join(cs.wce, ",") != strings.Join(cs.preset, ",") {
@@ -543,7 +567,7 @@ func c16Oracle(out *vOut, cs *c16Case, term string) {
 			want, wantErr = want[:L], 1
 		}
 		if cs.kind != 0 || !bytes.Equal(cs.data, want) || cs.errc != wantErr || strings.Join(cs.hce, ",") != strings.Join(cs.wce, ",") ||
-			len(cs.hce) != len(cs.wce) || cs.cl != int64(len(cs.wbody)) {
+			len(cs.hce) != len(cs.wce) || cs.cl != cs.wcl {
 			fail("passthrough", "request without content encoding did not pass through untouched: handler ce=%q cl=%d", cs.hce, cs.cl)
 		}
 		if !compressing && len(cs.preset) == 0 && !bytes.Equal(cs.wbody, cs.body) {
@@ -621,8 +645,8 @@ func (cs *c16Case) term() string {
 			}
 			dt = append(dt, vPair(vN(uint64(k)), d))
 		}
-		return fmt.Sprintf("LC %s %s %s %s %s %s %s %s %s %s %s %s",
-			vZ(cs.max), algs, custom, c16Strs(cs.wce), vZ(int64(len(cs.wbody))), vList(dt),
+		return fmt.Sprintf("LC %s %s %s %s %s %s %s %s %s %s %s %s %s",
+			vZ(cs.max), algs, custom, c16Strs(cs.wce), vZ(int64(len(cs.wbody))), vZ(cs.wcl), vList(dt),
 			vN(uint64(cs.kind)), vZ(int64(cs.status)), c16Strs(cs.hce), vZ(cs.clObs()), vZ(int64(len(cs.data))), vN(uint64(cs.errc)))
 	}
 	body := "None"
@@ -657,14 +681,20 @@ func (cs *c16Case) term() string {
 			dt = append(dt, vPair(vN(uint64(k)), d))
 		}
 	}
-	return fmt.Sprintf("EC %s %s %s %s %s %s %s %s %s %s %s %s %s %s %s %s %s %s %s %s %s",
-		vStr(cs.typ), vZ(int64(cs.level)), c16Strs(cs.preset), body, vBool(cs.rerr), vBool(cs.cerr),
+	return fmt.Sprintf("EC %s %s %s %s %s %s %s %s %s %s %s %s %s %s %s %s %s %s %s %s %s %s %s",
+		vStr(cs.typ), vZ(int64(cs.level)), c16Strs(cs.preset), body, vBool(cs.chunked), vBool(cs.rerr), vBool(cs.cerr),
 		vZ(cs.max), algs, custom, vList(et), c16StreamTerm(decin), vList(dt),
-		vN(uint64(cs.cstate)), c16Strs(cs.wce), vBytes(cs.wbody),
+		vN(uint64(cs.cstate)), c16Strs(cs.wce), vBytes(cs.wbody), vZ(cs.wclObs()),
 		vN(uint64(cs.kind)), vZ(int64(cs.statusObs())), c16Strs(cs.hceObs()), vZ(cs.clObs()), vBytes(cs.dataObs()), vN(uint64(cs.errcObs())))
 }
 
 // canonical observables: nothing about the handler unless it ran
+func (cs *c16Case) wclObs() int64 {
+	if !cs.clientOK {
+		return 0
+	}
+	return cs.wcl
+}
 func (cs *c16Case) statusObs() int {
 	if cs.kind == 2 {
 		return 0
@@ -974,6 +1004,7 @@ func c16Gen(r *vRand) *c16Case {
 			w = nil
 		}
 		cs.class = fmt.Sprintf("adversarial/%d", mut)
+		cs.bomb = mut == 0 && pn > L
 		cs.body = w
 		name := c16CodecName[k]
 		if name == "zlib" && r.Bool() {
@@ -1032,43 +1063,136 @@ func c16Gen(r *vRand) *c16Case {
 		c16Algs(r, cs)
 	}
 	cs.net = r.Pick(85, 15) == 1
+	if cs.bomb {
+		c16Framing(r, cs, 65)
+	} else if strings.HasPrefix(cs.class, "adversarial") {
+		c16Framing(r, cs, 50)
+	} else {
+		c16Framing(r, cs, 35)
+	}
 	return cs
 }
 
-// large bodies: sizes around codec block boundaries, limits around the sizes; every codec
-func c16GenLarge(r *vRand, i int) *c16Case {
-	cs := &c16Case{large: true, class: "large"}
-	cs.typ = c16Types[i%len(c16Types)]
-	cs.level = 0
-	if cs.typ != "snappy" && cs.typ != "lz4" && r.Bool() {
-		cs.level = 1 + r.Intn(9)
+// request framing: declared length vs. none (chunked), method.  The model's server takes the declared
+// length as an independent input and has no method at all.
+func c16Framing(r *vRand, cs *c16Case, pChunked int) {
+	cs.chunked = r.Intn(100) < pChunked && !cs.nilBody && len(cs.body) > 0
+	if cs.chunked && c16CodecOfName(cs.typ) < 0 && c16First(cs.preset) == "" && !cs.large && r.Pick(55, 45) == 1 {
+		cs.max = int64(1 + r.Intn(len(cs.body))) // identity body without declared length, at or over the limit
+	}
+	cs.method = []string{http.MethodPost, http.MethodPost, http.MethodPut, http.MethodPatch, http.MethodDelete}[r.Intn(5)]
+}
+
+// large bodies (sizes only in the case term).
+//
+// c16GenLarge: compressing client, STRATIFIED so that every quick run contains, for every type, every
+// level class of that type (flate: default, 1, 6, 9, huffman-only; zstd: one level per encoder speed
+// class) with a body larger than every codec's block / window granularity (> 128 KiB), and then
+// sizes around the block boundaries 2^15..2^18 +-1 and 4 MiB; limits around the sizes.
+var c16LargeLevels = map[string][]int{
+	"gzip": {0, 1, 6, 9, -2}, "zlib": {0, 6, 1, -2, 9}, "deflate": {0, 9, -2, 6, 1},
+	"zstd": {0, 3, 7, 11}, "snappy": {0}, "lz4": {0},
+}
+
+func c16LargeSize(r *vRand, big bool, slowLevel bool) int {
+	if big {
+		switch r.Pick(35, 30, 25, 10) {
+		case 0:
+			return 1<<18 + r.Intn(3) - 1
+		case 1:
+			return 300000 + r.Intn(300000)
+		case 2:
+			return 135000 + r.Intn(60000)
+		default:
+			if slowLevel {
+				return 1<<19 + r.Intn(3) - 1
+			}
+			return 4<<20 + r.Intn(3) - 1
+		}
 	}
 	bases := []int{1 << 15, 1 << 16, 1 << 17, 1 << 18, 4 << 20}
 	wts := []int{30, 30, 25, 10, 5}
 	if vTier() != "quick" {
-		wts = []int{20, 20, 20, 20, 20}
+		wts = []int{22, 22, 22, 22, 12}
+	}
+	if slowLevel {
+		wts[4] = 0
 	}
 	n := bases[r.Pick(wts...)] + r.Intn(3) - 1
 	if r.Pick(80, 20) == 1 {
 		n = 1000 + r.Intn(200000)
 	}
-	cs.body = c16Bytes(r, n, r.Pick(45, 25, 30))
+	return n
+}
+
+func c16LargeMax(r *vRand, n int) int64 {
 	switch r.Pick(25, 15, 15, 15, 15, 15) {
 	case 0:
-		cs.max = 0
+		return 0
 	case 1:
-		cs.max = int64(n)
+		return int64(n)
 	case 2:
-		cs.max = int64(n) - 1
+		return int64(n) - 1
 	case 3:
-		cs.max = int64(n) + 1
+		return int64(n) + 1
 	case 4:
-		cs.max = int64(n/10 + 1)
+		return int64(n/10 + 1)
 	default:
-		cs.max = int64(n) + 64 + int64(r.Intn(4096))
+		return int64(n) + 64 + int64(r.Intn(4096))
+	}
+}
+
+func c16GenLarge(r *vRand, i int) *c16Case {
+	cs := &c16Case{large: true, class: "large"}
+	cs.typ = c16Types[i%len(c16Types)]
+	lv := c16LargeLevels[cs.typ]
+	q := i / len(c16Types)
+	cs.level = lv[q%len(lv)]
+	strata := len(lv)
+	if strata < 3 {
+		strata = 3
+	}
+	slow := cs.level >= 9
+	n := c16LargeSize(r, q < strata, slow)
+	cs.body = c16Bytes(r, n, r.Pick(45, 25, 30))
+	cs.max = c16LargeMax(r, n)
+	if q < strata && r.Pick(60, 40) == 0 {
+		cs.max = 0 // the stratum's point is the codec, not the limit
 	}
 	cs.algsNil = true
 	cs.net = r.Pick(70, 30) == 1
+	c16Framing(r, cs, 50)
+	return cs
+}
+
+// c16GenLargeOther: large identity bodies, and large bodies compressed beforehand by the library (at
+// any level) and sent by a client that does not compress; half of them without declared length.
+func c16GenLargeOther(r *vRand, i int) *c16Case {
+	cs := &c16Case{large: true, algsNil: true}
+	n := c16LargeSize(r, r.Bool(), true)
+	cs.body = c16Bytes(r, n, r.Pick(45, 25, 30))
+	cs.max = c16LargeMax(r, n)
+	if i%2 == 0 {
+		cs.class = "large-identity"
+		cs.typ = []string{"", "none"}[r.Intn(2)]
+	} else {
+		cs.class = "large-precompressed"
+		name := c16Types[(i/2)%len(c16Types)]
+		lv := c16LargeLevels[name]
+		level := lv[r.Intn(len(lv))]
+		if level == 0 {
+			level = -1
+		}
+		if name == "snappy" || name == "lz4" {
+			level = 0
+		}
+		if w, ok := c16LibEnc(c16CodecOfName(name), level, cs.body); ok {
+			cs.body = w
+			cs.preset = []string{name}
+		}
+	}
+	cs.net = r.Pick(70, 30) == 1
+	c16Framing(r, cs, 50)
 	return cs
 }
 
@@ -1139,7 +1263,7 @@ func TestVerifC16(t *testing.T) {
 	defer out.Close()
 	r := vNewRand(0xC16)
 	n := vBudget(420, 12)
-	nl := vBudget(48, 6)
+	nl := vBudget(72, 5)
 	emit := func(cs *c16Case) {
 		c16Run(t, cs)
 		term := cs.term()
@@ -1158,6 +1282,28 @@ func TestVerifC16(t *testing.T) {
 		if cs.poison && cs.clientOK {
 			out.Stat("branch.pooled-writer-reused-after-failed-request", 1)
 		}
+		if cs.chunked {
+			out.Stat("framing.client-body-without-length", 1)
+		}
+		out.Stat("method."+cs.method, 1)
+		if cs.clientOK && cs.captured {
+			if cs.wcl < 0 {
+				out.Stat("framing.wire-chunked", 1)
+				if int64(len(cs.wbody)) > cs.effMax() {
+					if c16First(cs.wce) == "" {
+						out.Stat("framing.wire-chunked-identity-over-limit", 1)
+					} else {
+						out.Stat("framing.wire-chunked-encoded-raw-over-limit", 1)
+					}
+				}
+				if cs.kind == 0 && cs.errc == 1 && len(cs.hce) == 0 && cs.cl == -1 && c16First(cs.wce) != "" &&
+					int64(len(cs.wbody)) <= cs.effMax() {
+					out.Stat("framing.wire-chunked-decoded-over-limit", 1)
+				}
+			} else {
+				out.Stat("framing.wire-length-declared", 1)
+			}
+		}
 		if cs.net {
 			out.Stat("path.net", 1)
 		} else {
@@ -1172,6 +1318,16 @@ func TestVerifC16(t *testing.T) {
 			return
 		}
 		out.Stat("type."+cs.typ, 1)
+		if cs.class == "large" {
+			sz := "le128k"
+			if len(cs.body) > 128<<10 {
+				sz = "gt128k"
+			}
+			if len(cs.body) >= 4<<20-1 {
+				sz = "4m"
+			}
+			out.Stat(fmt.Sprintf("large.%s.level%d.%s", cs.typ, cs.level, sz), 1)
+		}
 		switch cs.kind {
 		case 0:
 			out.Stat(fmt.Sprintf("outcome.handled.err%d", cs.errc), 1)
@@ -1226,8 +1382,29 @@ func TestVerifC16(t *testing.T) {
 	for i := 0; i < n; i++ {
 		emit(c16Gen(r))
 	}
+	// exhaustive: every single enabled name x every content encoding name of the default list (which
+	// names does enabling ONE name let through?), with a body that is valid for the header's codec
+	for _, e := range c16DefaultAlgs {
+		for _, h := range c16DefaultAlgs {
+			cs := &c16Case{class: "pairgrid", typ: "", algs: []string{e}, max: int64(20 + r.Intn(40))}
+			payload := c16Bytes(r, 1+r.Intn(int(cs.max)), r.Pick(40, 30, 30))
+			cs.body = payload
+			if k := c16CodecOfName(h); k >= 0 {
+				cs.body, _ = c16LibEnc(k, -1, payload)
+				cs.max += int64(len(cs.body))
+			}
+			if h != "" {
+				cs.preset = []string{h}
+			}
+			c16Framing(r, cs, 30)
+			emit(cs)
+		}
+	}
 	for i := 0; i < nl; i++ {
 		emit(c16GenLarge(r, i))
+	}
+	for i := 0; i < vBudget(14, 6); i++ {
+		emit(c16GenLargeOther(r, i))
 	}
 	c16Concurrent(t, out, r)
 }
